@@ -523,7 +523,7 @@ def check_power(case):
 
 
 APP_KINDS = ["MaxEig", "LLS:ConjugateGradient", "LLS:GradientMethod", "LLS:PrimalDualHybridGradient", "LLS:ADMM", "LLS:default",
-             "L2Constrained", "SenseRecon", "EspiritCalib"]
+             "L2Constrained", "SenseRecon", "EspiritCalib", "L1WaveletRecon", "TotalVariationRecon", "JsenseRecon"]
 
 
 @st.composite
@@ -564,6 +564,21 @@ def check_app(case):
             ksp = (rng.standard_normal((2, 4, 4)) + 1j * rng.standard_normal((2, 4, 4)))
             app = sp.mri.app.SenseRecon(ksp, mps, lamda=0.1, max_iter=mi, show_pbar=False)
             held = lambda: app.alg.x
+        elif k in ("L1WaveletRecon", "TotalVariationRecon"):
+            rng = np.random.default_rng(seed)
+            mps = (rng.standard_normal((2, 4, 4)) + 1j * rng.standard_normal((2, 4, 4)))
+            ksp = (rng.standard_normal((2, 4, 4)) + 1j * rng.standard_normal((2, 4, 4)))
+            if k == "L1WaveletRecon":
+                app = sp.mri.app.L1WaveletRecon(ksp, mps, 0.05, wave_name="haar", max_iter=mi, show_pbar=False)
+            else:
+                app = sp.mri.app.TotalVariationRecon(ksp, mps, 0.05, max_iter=mi, show_pbar=False)
+            held = lambda: app.alg.x
+        elif k == "JsenseRecon":
+            rng = np.random.default_rng(seed)
+            ksp = (rng.standard_normal((2, 8, 8)) + 1j * rng.standard_normal((2, 8, 8)))
+            app = sp.mri.app.JsenseRecon(ksp, mps_ker_width=2 + n % 3, ksp_calib_width=4 + m % 3, lamda=case["lamda"],
+                                         max_iter=mi, max_inner_iter=2, show_pbar=False)
+            held = None
         else:
             rng = np.random.default_rng(seed)
             ksp = (rng.standard_normal((3, 8, 8)) + 1j * rng.standard_normal((3, 8, 8)))
